@@ -23,7 +23,7 @@ use hickory_net::xfer::{BufDnsStreamHandle, Protocol};
 use hickory_proto::op::{DnsResponse, Edns, Message, MessageType, OpCode, Query};
 use hickory_proto::rr::rdata::tsig::{make_tsig_record, message_tbs, signed_bitmessage_to_buf, TsigAlgorithm, TsigError, TSIG};
 use hickory_proto::rr::rdata::{A, NS, SOA, TXT};
-use hickory_proto::rr::{DNSClass, LowerName, Name, RData, Record, RecordType, TSigner};
+use hickory_proto::rr::{DNSClass, LowerName, Name, RData, Record, RecordType, TSigResponseContext, TSigVerifier, TSigner};
 use hickory_proto::serialize::binary::{BinDecodable, BinDecoder};
 use hickory_server::server::{Request, RequestHandler, ResponseHandle};
 use hickory_server::store::in_memory::InMemoryZoneHandler;
@@ -243,6 +243,12 @@ fn lower_wire(labels: &[Vec<u8>]) -> Vec<u8> {
 
 /// RFC 8945 §4.3: the digest input
 fn ref_tbs(b: &[u8], t: &RefTsig, prev: Option<&[u8]>) -> Vec<u8> {
+    ref_tbs_ex(b, t, prev, true)
+}
+
+/// RFC 8945 §4.3 / §5.3.1: for a message after the first of a multi-message reply only the TSIG
+/// timers follow the message
+fn ref_tbs_ex(b: &[u8], t: &RefTsig, prev: Option<&[u8]>, first: bool) -> Vec<u8> {
     let mut o = vec![];
     if let Some(m) = prev {
         o.extend((m.len() as u16).to_be_bytes());
@@ -253,6 +259,11 @@ fn ref_tbs(b: &[u8], t: &RefTsig, prev: Option<&[u8]>) -> Vec<u8> {
     let ar = r16(b, 10).unwrap() as u16;
     o.extend((ar - 1).to_be_bytes());
     o.extend(&b[12..t.start]);
+    if !first {
+        o.extend(&t.time.to_be_bytes()[2..8]);
+        o.extend(t.fudge.to_be_bytes());
+        return o;
+    }
     o.extend(lower_wire(&t.key_name));
     o.extend(t.class.to_be_bytes());
     o.extend(t.ttl.to_be_bytes());
@@ -289,6 +300,10 @@ enum RefVerdict {
 /// "ends with a TSIG record naming a configured key whose full-length MAC verifies over the exact
 /// request bytes and whose time is within fudge of the server clock"
 fn ref_verify(b: &[u8], keys: &[SignerSpec], now: u64, prev: Option<&[u8]>) -> (RefVerdict, Option<RefTsig>) {
+    ref_verify_ex(b, keys, now, prev, true)
+}
+
+fn ref_verify_ex(b: &[u8], keys: &[SignerSpec], now: u64, prev: Option<&[u8]>, first: bool) -> (RefVerdict, Option<RefTsig>) {
     let Some(t) = ref_tsig(b) else { return (RefVerdict::Unsigned, None) };
     let kn: Vec<Vec<u8>> = t.key_name.iter().map(|l| l.to_ascii_lowercase()).collect();
     let Some(k) = keys.iter().find(|k| lower_labels(&k.name) == kn) else { return (RefVerdict::UnknownKey, Some(t)) };
@@ -297,7 +312,7 @@ fn ref_verify(b: &[u8], keys: &[SignerSpec], now: u64, prev: Option<&[u8]>) -> (
         return (RefVerdict::WrongAlg, Some(t));
     }
     let Some(alg) = alg_of(k.bits) else { return (RefVerdict::WrongAlg, Some(t)) };
-    let tag = alg.mac_data(&key_bytes(&k.keyid), &ref_tbs(b, &t, prev)).unwrap_or_default();
+    let tag = alg.mac_data(&key_bytes(&k.keyid), &ref_tbs_ex(b, &t, prev, first)).unwrap_or_default();
     if tag.is_empty() || tag != t.mac {
         return (RefVerdict::BadMac, Some(t));
     }
@@ -639,6 +654,101 @@ fn policy_of(s: &str) -> Option<AxfrPolicy> {
 struct Ctx {
     rt: tokio::runtime::Runtime,
     journal_path: std::path::PathBuf,
+    /// the `begin vseq` … `end` block being executed
+    vseq: std::cell::RefCell<Option<VSeq>>,
+}
+
+/// one real `TSigVerifier` fed a sequence of messages, and what the harness knows about it
+struct VSeq {
+    verifier: TSigVerifier,
+    sg: SignerSpec,
+    /// shadow of the verifier's private state as its contract defines it: the MAC and the time of
+    /// the last message it accepted (the request MAC / 0 before the first)
+    prev: Vec<u8>,
+    rt: u64,
+    qt: u64,
+    accepted: usize,
+}
+
+/// `begin vseq <signer> <reqmac> <request_time> <unsigned-req>`
+fn exec_vseq_begin(t: &[&str], cx: &Ctx) -> Option<CaseOut> {
+    let [_, _, sg, _, qt, req] = t else { return None };
+    let sg = SignerSpec::parse(sg)?;
+    let signer = sg.signer()?;
+    let qt: u64 = qt.parse().ok()?;
+    let req = unhex(req)?;
+    let mut m = Message::from_vec(&req).ok()?;
+    let verifier = m.finalize(&signer, qt).ok()??;
+    let prev = m.signature()?.data.mac.clone();
+    let line = format!("begin vseq {} {} {} {}", sg.tok(false), hex(&prev), qt, hex(&req));
+    *cx.vseq.borrow_mut() = Some(VSeq { verifier, sg, prev, rt: 0, qt, accepted: 0 });
+    Some(CaseOut { line, out: "ok".into(), fails: vec![], nontrivial: false, stats: vec!["vseq.begin".into()] })
+}
+
+/// `vmsg <buf> <rdok> <parseok> <macok>` — the next message given to the verifier of the block.
+/// Contract of the code (stricter than RFC 8945 5.3.1, which would allow unsigned intermediate
+/// messages folded into the next digest): EVERY accepted message carries a TSIG RR whose MAC covers
+/// the previously accepted MAC (the request MAC at first) ‖ the message ‖ TSIG variables (first
+/// accepted message) resp. timers (later ones), its time does not go backwards, and the request
+/// time lies in its window.
+fn exec_vmsg(t: &[&str], cx: &Ctx) -> Option<CaseOut> {
+    let [_, buf, _, _, _] = t else { return None };
+    let buf = unhex(buf)?;
+    let mut guard = cx.vseq.borrow_mut();
+    let st = guard.as_mut()?;
+    let first = st.rt == 0;
+    let ok = rdok(&buf);
+    let pok = catch(|| DnsResponse::from_buffer(buf.clone()).is_ok()).unwrap_or(false);
+    let mok = macok_for(&st.sg, &buf, Some(&st.prev), first);
+    let line = format!("vmsg {} {} {} {}", hex(&buf), b(ok), b(pok), b(mok));
+    let mut fails: Vec<(String, &'static str)> = vec![];
+    let mut stats = vec![format!("vmsg.first.{}", b(first)), format!("vmsg.pos.{}", st.accepted.min(5))];
+    let mut nontrivial = false;
+    let r = ref_tsig(&buf);
+    let (v, rt_) = ref_verify_ex(&buf, std::slice::from_ref(&st.sg), st.qt, Some(&st.prev), first);
+    let verifier = &mut st.verifier;
+    let out = match catch(|| verifier.verify(&buf).map(|_| ()).map_err(|_| ())) {
+        Ok(Ok(())) => {
+            stats.push("vmsg.accept".into());
+            nontrivial = !first;
+            if !matches!(v, RefVerdict::Valid { .. }) {
+                fails.push((
+                    format!("message {} of a multi-message reply was accepted although it is not authenticated by the chain ({v:?}; first={first})", st.accepted),
+                    deviation_class(&buf, rt_.as_ref()),
+                ));
+            }
+            match &r {
+                Some(r) => {
+                    if r.time < st.rt {
+                        fails.push(("accepted a message whose time signed goes backwards".into(), ""));
+                    }
+                    st.prev = r.mac.clone();
+                    st.rt = r.time;
+                    st.accepted += 1;
+                    format!("ok {} {}", hex(&r.mac), r.time)
+                }
+                None => "ok ? ?".into(),
+            }
+        }
+        Ok(Err(())) => {
+            stats.push("vmsg.reject".into());
+            let canonical = rt_.as_ref().is_some_and(|t| t.alg_plain && t.class == 255 && t.ttl == 0 && t.other.is_empty()) && buf.len() > 3;
+            if pok && canonical && matches!(v, RefVerdict::Valid { strict: true }) && r.as_ref().is_some_and(|r| r.time >= st.rt) {
+                fails.push((format!("a genuine message of the chain (position {}) was rejected", st.accepted), ""));
+            }
+            "err".into()
+        }
+        Err(p) => {
+            stats.push("vmsg.panic".into());
+            panic_out(&p, "TSigVerifier::verify", &mut fails)
+        }
+    };
+    Some(CaseOut { line, out, fails, nontrivial, stats })
+}
+
+fn exec_vseq_end(cx: &Ctx) -> Option<CaseOut> {
+    *cx.vseq.borrow_mut() = None;
+    Some(CaseOut { line: "end".into(), out: "ok".into(), fails: vec![], nontrivial: false, stats: vec![] })
 }
 
 /// `srv <origin> <au> <pol> <signers|-> <now> <buf> <rdok> <journal>`
@@ -925,6 +1035,9 @@ fn exec(line: &str, rec: &mut Recorder, cx: &Ctx) {
         Some("srv") => exec_srv(&t, cx),
         Some("bigxfr") => exec_bigxfr(&t, cx),
         Some("ssm") => exec_ssm(&t),
+        Some("begin") => exec_vseq_begin(&t, cx),
+        Some("vmsg") => exec_vmsg(&t, cx),
+        Some("end") => exec_vseq_end(cx),
         _ => None,
     });
     match r {
@@ -1046,6 +1159,34 @@ fn sign_plain(m: &Message, s: &SignerSpec, time: u64) -> Vec<u8> {
     let mut m = m.clone();
     m.finalize(&s.signer().unwrap(), time).unwrap();
     m.to_vec().unwrap()
+}
+
+/// A message of a multi-message reply, signed with the real pieces the code base offers: the TBS
+/// comes from `signed_bitmessage_to_buf(bytes, Some(previous MAC), first_style)` run on the message
+/// carrying a stub TSIG RR (the TBS does not depend on the MAC), the MAC from `TSigner::sign`.
+/// (There is no multi-message signer in hickory: the server signs single replies only, through
+/// `TSigResponseContext::sign` — used for the first message below.)
+fn sign_chained(m: &Message, s: &SignerSpec, keyid: &str, prev: &[u8], time: u64, first_style: bool) -> Option<(Vec<u8>, Vec<u8>)> {
+    let alg = alg_of(s.bits)?;
+    let mut kn = s.name.clone();
+    kn.set_fqdn(true);
+    let stub = TSIG::new(alg.clone(), time, s.fudge, vec![0u8; (s.bits / 8) as usize], m.metadata.id, None, vec![]);
+    let mut mm = m.clone();
+    mm.set_signature(Box::new(make_tsig_record(kn.clone(), stub.clone())));
+    let bytes0 = mm.to_vec().ok()?;
+    let (tbs, _) = signed_bitmessage_to_buf(&bytes0, Some(prev), first_style).ok()?;
+    let mac = alg.mac_data(&key_bytes(keyid), &tbs).ok()?;
+    mm.set_signature(Box::new(make_tsig_record(kn, stub.set_mac(mac.clone()))));
+    Some((mm.to_vec().ok()?, mac))
+}
+
+fn chain_msg(id: u16, k: u32, n_answers: u32) -> Message {
+    let mut m = Message::response(id, OpCode::Query);
+    m.add_query(Query::new(origin(), RecordType::AXFR));
+    for j in 0..n_answers {
+        m.add_answer(Record::from_rdata(Name::from_ascii(format!("m{k}r{j}.example.com.")).unwrap(), 300, RData::A(A::new(10, 9, k as u8, j as u8))));
+    }
+    m
 }
 
 fn cfg_line(au: bool, pol: &str, keys: &[SignerSpec], now: u64, buf: &[u8], journal: bool) -> String {
@@ -1186,6 +1327,7 @@ pub fn run(o: &Opts, rec: &mut Recorder) {
     let cx = Ctx {
         rt: tokio::runtime::Builder::new_current_thread().enable_all().build().unwrap(),
         journal_path: o.out.join("c13-journal.sqlite"),
+        vseq: std::cell::RefCell::new(None),
     };
     for l in &o.pre_lines {
         exec(l, rec, &cx);
@@ -1239,7 +1381,20 @@ pub fn run(o: &Opts, rec: &mut Recorder) {
     }
     let offsets = |f: u64| -> Vec<i64> {
         let f = f as i64;
-        vec![0, 1, -1, f - 1, -(f - 1), f, -f, f + 1, -(f + 1), 1_000_000, -1_000_000]
+        let mut v = vec![0, 1, -1, f - 1, -(f - 1), f, -f, f + 1, -(f + 1), 1_000_000, -1_000_000];
+        // skews that are small only modulo 2^16 / 2^32 (a truncating cast of the difference)
+        for k in [1i64, 2, 3, 1000] {
+            for d in [0i64, 7, -7, f - 1, -(f - 1)] {
+                v.push(k * 65536 + d);
+                v.push(-(k * 65536 + d));
+            }
+        }
+        for d in [0i64, 7, -7] {
+            v.push((1i64 << 32) + d);
+            v.push((1i64 << 31) + d);
+            v.push(-((1i64 << 30) + d));
+        }
+        v
     };
     for (bi, (buf, signer, _)) in bases.clone().into_iter().enumerate() {
         for (ki, (_, keys)) in keysets.iter().enumerate() {
@@ -1458,6 +1613,103 @@ pub fn run(o: &Opts, rec: &mut Recorder) {
                     g.run(format!("tbs {} {} 1 ?", hex(&mb), hex(&reqmac)));
                 }
             }
+        }
+    }
+
+    // ---- (4c) one TSigVerifier fed a sequence of messages (multi-message replies) -------------
+    for signer in [a.clone(), bq.clone()] {
+        let id = g.rng.next() as u16;
+        let req = axfr_msg(id);
+        let unsigned = req.to_vec().unwrap();
+        let s = signer.signer().unwrap();
+        let mut rq = req.clone();
+        rq.finalize(&s, T0).unwrap();
+        let reqmac = rq.signature().unwrap().data.mac.clone();
+        // the genuine chain g0 … g4: the first message through the server's own response signer
+        let times = [T0, T0, T0 + 1, T0 + 1, T0 + 2];
+        let mut genuine: Vec<(Vec<u8>, Vec<u8>)> = vec![];
+        let mut prev = reqmac.clone();
+        for (k, t) in times.iter().enumerate() {
+            let m = chain_msg(id, k as u32, 1 + (k as u32 % 3));
+            let (bytes, mac) = if k == 0 {
+                let un = m.to_vec().unwrap();
+                let rec = TSigResponseContext::new(id, *t, s.clone(), reqmac.clone(), None).sign(&un).unwrap();
+                let mac = rec.data.mac.clone();
+                let mut mm = m.clone();
+                mm.set_signature(rec);
+                (mm.to_vec().unwrap(), mac)
+            } else {
+                sign_chained(&m, &signer, &signer.keyid, &prev, *t, false).unwrap()
+            };
+            prev = mac.clone();
+            genuine.push((bytes, mac));
+        }
+        let g_ = |i: usize| genuine[i].0.clone();
+        let unsigned_msg = |k: u32, idd: u16| chain_msg(idd, 100 + k, 2).to_vec().unwrap();
+        // alternatives
+        let alt2_after0 = sign_chained(&chain_msg(id, 2, 3), &signer, &signer.keyid, &genuine[0].1, T0 + 1, false).unwrap().0;
+        let g2_first_style = sign_chained(&chain_msg(id, 2, 3), &signer, &signer.keyid, &genuine[1].1, T0 + 1, true).unwrap().0;
+        let g0_later_style = sign_chained(&chain_msg(id, 0, 1), &signer, &signer.keyid, &reqmac, T0, false).unwrap().0;
+        let g2_wrong_key = sign_chained(&chain_msg(id, 2, 3), &signer, "kx", &genuine[1].1, T0 + 1, false).unwrap().0;
+        let g2_back_in_time = sign_chained(&chain_msg(id, 2, 3), &signer, &signer.keyid, &genuine[1].1, T0 - 1, false).unwrap().0;
+        let g1_time_zero = sign_chained(&chain_msg(id, 1, 2), &signer, &signer.keyid, &genuine[0].1, 0, false).unwrap().0;
+        let far = T0 + signer.fudge as u64 + 50;
+        let g2_outside_window = sign_chained(&chain_msg(id, 2, 3), &signer, &signer.keyid, &genuine[1].1, far, false).unwrap().0;
+        let mut g2_flipped = g_(2);
+        g2_flipped[40] ^= 0x01;
+        let mut seqs: Vec<(&str, Vec<Vec<u8>>)> = vec![
+            ("genuine", (0..5).map(g_).collect()),
+            ("unsigned-intermediate", vec![g_(0), g_(1), unsigned_msg(0, id), g_(2), g_(3)]),
+            ("unsigned-after-first", vec![g_(0), unsigned_msg(1, id), unsigned_msg(2, id.wrapping_add(1))]),
+            ("unsigned-first", vec![unsigned_msg(3, id), g_(0), g_(1)]),
+            ("unsigned-last", vec![g_(0), g_(1), g_(2), unsigned_msg(4, id)]),
+            ("forged-bit", vec![g_(0), g_(1), g2_flipped, g_(2), g_(3)]),
+            ("forged-key", vec![g_(0), g_(1), g2_wrong_key, g_(2)]),
+            ("replayed", vec![g_(0), g_(1), g_(1), g_(2), g_(0)]),
+            ("out-of-order", vec![g_(0), g_(2), g_(1), g_(2), g_(4), g_(3), g_(4)]),
+            ("fork", vec![g_(0), alt2_after0.clone(), g_(1), g_(2)]),
+            ("first-style-later", vec![g_(0), g_(1), g2_first_style, g_(2)]),
+            ("later-style-first", vec![g0_later_style, g_(0), g_(1)]),
+            ("time-backwards", vec![g_(0), g_(1), g2_back_in_time, g_(2)]),
+            ("time-zero", vec![g_(0), g1_time_zero, g_(1)]),
+            ("outside-window", vec![g_(0), g_(1), g2_outside_window, g_(2)]),
+            ("first-twice", vec![g_(0), g_(0), g_(1)]),
+        ];
+        // sampled bit flips / truncations of continuation messages inside a running chain
+        let nflip = if thorough { 400 } else { 40 };
+        for _ in 0..nflip {
+            let k = g.rng.range(1, 3) as usize;
+            let mut mb = g_(k);
+            match g.rng.below(6) {
+                0 => {
+                    let c = g.rng.below(mb.len() as u64) as usize;
+                    mb.truncate(c);
+                }
+                1 => {
+                    // drop the TSIG RR: ARCOUNT - 1, cut at its start
+                    if let Some(rt) = ref_tsig(&mb) {
+                        let ar = r16(&mb, 10).unwrap() as u16;
+                        mb.truncate(rt.start);
+                        patch16(&mut mb, 10, ar - 1);
+                    }
+                }
+                _ => {
+                    let i = g.rng.below(mb.len() as u64 * 8) as usize;
+                    mb[i / 8] ^= 0x80 >> (i % 8);
+                }
+            }
+            let mut sq: Vec<Vec<u8>> = (0..k).map(g_).collect();
+            sq.push(mb);
+            sq.push(g_(k));
+            seqs.push(("mutated-continuation", sq));
+        }
+        for (tag, sq) in seqs {
+            g.rec.stat(&format!("gen.vseq.{tag}"));
+            g.run(format!("begin vseq {} {} {} {}", signer.tok(false), hex(&reqmac), T0, hex(&unsigned)));
+            for mb in sq {
+                g.run(format!("vmsg {} ? ? ?", hex(&mb)));
+            }
+            g.run("end".to_string());
         }
     }
 
